@@ -504,6 +504,33 @@ func ruleC20_3(c *Ctx) {
 					}
 				}
 			}
+			// ... or handed to an unexported helper that dumps to exactly that path (directly, or to a temporary name that
+			// is then renamed to it)
+			if !used {
+				for _, k := range allCalls(f) {
+					g := k.Common().StaticCallee()
+					if g == nil || g.Blocks == nil || g.Pkg != f.Pkg || g.Object() == nil || g.Object().Exported() {
+						continue
+					}
+					for ai, a := range k.Common().Args {
+						if ai >= len(g.Params) || !derives(a, func(v ssa.Value) bool { return v == ssa.Value(sc) }, true) || !derives(a, func(v ssa.Value) bool { return org(v) == c.fv("metadata-directory", "runCmd", "recordCmd") }, true) {
+							continue
+						}
+						pp := g.Params[ai]
+						for _, d := range callsIn(g, "iface:in_toto.Metadata.Dump") {
+							target := d.Common().Args[0]
+							if resolve(target, d) == ssa.Value(pp) {
+								used = true
+							}
+							for _, rn := range callsIn(g, "os.Rename") {
+								if org(rn.Common().Args[0]) == org(target) && resolve(rn.Common().Args[1], rn) == ssa.Value(pp) {
+									used = true
+								}
+							}
+						}
+					}
+				}
+			}
 			c.check(used, R, s.fn, "file "+s.format+" lives in the metadata directory", call.Pos(), "Join(outDir, name) is what is dumped / loaded", "the constructed name is not what is written/read under the metadata directory")
 		}
 		if !found {
